@@ -83,3 +83,28 @@ async fn replay_open_registration_round_inner() {
     leader.close_registration_round().await.unwrap();
     assert!(leader.get_current_round().await.is_none(), "round still open after close_registration_round");
 }
+
+/// the aggregator's registration verifier: the registered identity is the pool id bound to the operational certificate,
+/// never the id the registrant claims; the stake is the distribution's value for THAT pool
+#[tokio::test]
+async fn replay_verify() {
+    use crate::services::SignerRegistrationVerifier;
+    let fixture = MithrilFixtureBuilder::default().with_signers(3).build();
+    let signers: Vec<Signer> = fixture.signers();
+    let stakes: StakeDistribution = signers.iter().enumerate().map(|(i, s)| (s.party_id.clone(), 500 + i as u64)).collect();
+    let verifier = MithrilSignerRegistrationVerifier::new(Arc::new(FakeChainObserver::new(Some(TimePoint::dummy()))));
+    let honest = verifier.verify(&signers[0], &stakes).await.expect("honest registration rejected");
+    assert_eq!((honest.party_id.clone(), honest.stake), (signers[0].party_id.clone(), 500));
+    // pool 0's certificate, key and signature, registered under pool 1's NAME (or under an empty name)
+    for claimed in [signers[1].party_id.clone(), String::new()] {
+        let mut spliced = signers[0].clone();
+        spliced.party_id = claimed.clone();
+        if let Ok(s) = verifier.verify(&spliced, &stakes).await {
+            assert_eq!(s.party_id, signers[0].party_id, "registration accepted under the CLAIMED party id '{}' instead of the pool id bound to the operational certificate", claimed);
+            assert_eq!(s.stake, 500, "registration accepted with the stake of another pool");
+        }
+    }
+    // a pool absent from the stake distribution
+    let partial: StakeDistribution = stakes.iter().filter(|(k, _)| **k != signers[2].party_id).map(|(k, v)| (k.clone(), *v)).collect();
+    assert!(verifier.verify(&signers[2], &partial).await.is_err(), "a pool absent from the stake distribution is accepted");
+}
